@@ -266,6 +266,21 @@ impl tower_service::Service<http::Request<tonic::body::Body>> for Svc {
     }
 }
 
+/// timeouts people write to mean "no timeout": boundary values of every integer width a
+/// deadline computation may pass through
+fn huge_timeouts() -> Vec<Duration> {
+    vec![
+        Duration::MAX,
+        Duration::from_secs(u64::MAX),
+        Duration::from_secs(i64::MAX as u64),
+        Duration::from_secs(i64::MAX as u64 + 1),
+        Duration::from_millis(u64::MAX),
+        Duration::from_secs(u64::MAX / 1000),
+        Duration::from_secs(u64::MAX / 1_000_000_000 + 1),
+        Duration::from_secs(u32::MAX as u64 + 1),
+        Duration::from_secs(1 << 40),
+    ]
+}
 #[derive(Clone, Debug)]
 enum Src {
     None,
@@ -791,6 +806,18 @@ fn corpus(out: &mut Out) {
     case_run(out, Src::None, None, Some(ms(0)), 0, true);
     case_run(out, Src::None, None, Some(Duration::from_micros(1200)), 2, true);
     case_run(out, Src::None, None, Some(Duration::from_micros(1200)), 3, true);
+
+    // "effectively infinite" configured timeouts (Duration::MAX, u64::MAX / i64::MAX seconds, ...):
+    // arithmetic on them (Instant + Duration, as_millis as u64, ...) must not overflow or panic;
+    // a call that finishes at once is unaffected, a shorter caller deadline still wins
+    for h in huge_timeouts() {
+        for (c, s) in [(Some(h), None), (None, Some(h)), (Some(h), Some(h))] {
+            case_run(out, Src::None, c, s, 3, true);
+            case_run(out, Src::Set(ms(5)), c, s, 3, true);
+            case_run(out, Src::Set(ms(5)), c, s, 7, true);
+            case_run(out, Src::Raw("99999999H".into()), c, s, 3, true);
+        }
+    }
 
     // known findings F-C09b / F-C09c: head in time, the rest beyond the deadline, nobody cuts it
     let flag = !std::env::args().any(|a| a == "--no-flag-overrun");
